@@ -27,7 +27,7 @@ def make(rng, S):
     shape = [n] + trailing
     L = gen.lanes_of(shape)
     if S == "Q":
-        xs = gen.axis_q(rng, n, rng.choice(["unit", "uniform", "geometric", "random", "dyadic", "mesh64", "evenish"]))
+        xs = gen.axis_q(rng, n, rng.choice(["unit", "uniform", "geometric", "random", "dyadic", "mesh64", "evenish", "nearly_even", "indexlike"]))
         flat = gen.vals_q(rng, n * L, rng.choice(["int", "dyadic", "rational"]))
         P = xs[-1] - xs[0]
         base = [xs[0], xs[-1], xs[0] + P * Fr(1, 2 ** 40), xs[-1] - P * Fr(1, 2 ** 40), xs[1], xs[0] + P * Fr(rng.randint(1, 99), 100)]
